@@ -869,8 +869,11 @@ def r_counted(prog, R, E):
                 r.ok(key, f.loc(b.els[0]), note="+%d / %d hand-offs" % (inc, len(hand)))
             # increment precedes the first hand-off
             first_inc = min([i for i, el in enumerate(b.els) if el["k"] == "asg" and strip(el["e"]["l"]).get("k") == "mem" and strip(el["e"]["l"])["f"] == "remaining"] or [999])
-            if hand and first_inc > hand[0][0]:
-                r.viol(key + " order", f.name, f.loc(hand[0][1]), "lookup started before 'remaining' was incremented: a synchronous failure completes the request too early")
+            last_inc = max([i for i, el in enumerate(b.els) if el["k"] == "asg" and strip(el["e"]["l"]).get("k") == "mem" and strip(el["e"]["l"])["f"] == "remaining"] or [-1])
+            if hand and (first_inc > hand[0][0] or last_inc > hand[0][0]):
+                r.viol(key + " order", f.name, f.loc(hand[0][1]), "a lookup is started before 'remaining' accounts for every lookup of this arm: a lookup that completes inside the call that starts it (answer in the query cache, synchronous send failure) brings the counter to zero, the request is completed and freed, and the remaining lookups are then started on the released request (second callback, use after free)")
+            elif hand:
+                r.ok(key + " order", f.loc(hand[0][1]))
             # no use of hquery after the last hand-off
             if hand:
                 li, lel = hand[-1]
